@@ -28,7 +28,10 @@ Fixpoint parse_varint_fuel (fuel : nat) (bs : bytes) (shift : Z) (acc : Z) : opt
   | S k => match bs with
            | [] => None
            | b :: r => let acc' := acc + (b mod 128) * 2 ^ shift in
-                       if b <? 128 then Some (acc', r) else parse_varint_fuel k r (shift + 7) acc'
+                       if b <? 128 then
+                         (* the tenth byte may only carry bit 63: anything above overflows 64 bits and is rejected *)
+                         (if (shift =? 63) && (2 <=? b) then None else Some (acc', r))
+                       else parse_varint_fuel k r (shift + 7) acc'
            end
   end.
 Definition parse_varint (bs : bytes) : option (Z * bytes) :=
@@ -39,6 +42,36 @@ Definition parse_varint (bs : bytes) : option (Z * bytes) :=
 
 Inductive rawval := RVarint (v : Z) | RBytes (b : bytes) | RFixed64 (b : bytes) | RFixed32 (b : bytes).
 Definition rawfield := (Z * rawval)%type.
+
+(* a group (wire types 3 = start, 4 = end): protobuf-go skips a well-formed group as an unknown field — also when the
+   field number is a known non-group field (wrong wire type) — and rejects an unterminated group, an end-group with
+   another field number, and nesting deeper than protowire.DefaultRecursionLimit.  skip_group consumes the fields of the
+   group `fld` whose start tag has just been read and returns what follows its end tag; `depth` = levels still allowed *)
+Fixpoint skip_group (fuel : nat) (depth : Z) (fld : Z) (bs : bytes) : option bytes :=
+  match fuel with
+  | O => None
+  | S k =>
+      if depth <? 0 then None else
+      match parse_varint bs with
+      | None => None
+      | Some (t, r) =>
+          let field := t / 8 in
+          let wt := t mod 8 in
+          if (field <? 1) || (2 ^ 29 <=? field) then None
+          else if wt =? 4 then (if field =? fld then Some r else None)
+          else if wt =? 0 then match parse_varint r with Some (_, r') => skip_group k depth fld r' | None => None end
+          else if wt =? 2 then
+            match parse_varint r with
+            | Some (n, r') => if Z.of_nat (length r') <? n then None else skip_group k depth fld (skipn (Z.to_nat n) r')
+            | None => None
+            end
+          else if wt =? 1 then (if (length r <? 8)%nat then None else skip_group k depth fld (skipn 8 r))
+          else if wt =? 5 then (if (length r <? 4)%nat then None else skip_group k depth fld (skipn 4 r))
+          else if wt =? 3 then match skip_group k (depth - 1) field r with Some r' => skip_group k depth fld r' | None => None end
+          else None
+      end
+  end.
+Definition group_depth_limit : Z := 10000.
 
 Fixpoint parse_fields_fuel (fuel : nat) (bs : bytes) : option (list rawfield) :=
   match fuel with
@@ -72,7 +105,12 @@ Fixpoint parse_fields_fuel (fuel : nat) (bs : bytes) : option (list rawfield) :=
               else if wt =? 5 then
                 if (length r <? 4)%nat then None
                 else option_map (cons (field, RFixed32 (firstn 4 r))) (parse_fields_fuel k (skipn 4 r))
-              else None   (* groups (3,4) are rejected for messages without group fields; 6,7 invalid *)
+              else if wt =? 3 then
+                match skip_group k group_depth_limit field r with     (* unknown (or wrong-typed) field: skipped *)
+                | Some r' => parse_fields_fuel k r'
+                | None => None
+                end
+              else None   (* a stray end-group (4), and wire types 6, 7: invalid *)
           end
       end
   end.
